@@ -254,29 +254,33 @@ Theorem hext_elements_get m v :
 Proof.
   intros Hok (H1 & H2 & H3 & H4 & H5 & H6 & H7).
   unfold hext_elements.
-  set (a0 := hext_empty).
-  destruct (el_mid m a0 _ Hok H1) as (e1 & E1 & W1 & L1 & G1). rewrite E1. cbn [bind].
-  set (a1 := mkHext _ _ _ _ _ _ _) in G1.
-  destruct (el_rrid m a1 _ Hok H2) as (e2 & E2 & W2 & L2 & G2). rewrite E2. cbn [bind].
-  set (a2 := mkHext _ _ _ _ _ _ _) in G2.
-  destruct (el_rid m a2 _ Hok H3) as (e3 & E3 & W3 & L3 & G3). rewrite E3. cbn [bind].
-  set (a3 := mkHext _ _ _ _ _ _ _) in G3.
-  destruct (el_abs m a3 _ Hok H4) as (e4 & E4 & W4 & L4 & G4). rewrite E4. cbn [bind].
-  set (a4 := mkHext _ _ _ _ _ _ _) in G4.
-  destruct (el_toffset m a4 _ Hok H5) as (e5 & E5 & W5 & L5 & G5). rewrite E5. cbn [bind].
-  set (a5 := mkHext _ _ _ _ _ _ _) in G5.
-  destruct (el_audio m a5 _ Hok H6) as (e6 & E6 & W6 & L6 & G6). rewrite E6. cbn [bind].
-  set (a6 := mkHext _ _ _ _ _ _ _) in G6.
-  destruct (el_tsn m a6 _ Hok H7) as (e7 & E7 & W7 & L7 & G7). rewrite E7. cbn [bind].
+  destruct (el_mid m hext_empty _ Hok H1) as (e1 & E1 & W1 & L1 & G1). rewrite E1. cbn [bind].
+  unfold hext_empty in G1. cbn [abs_send_time audio_level mid rrid rid toffset tsn] in G1.
+  match type of G1 with _ = Ok ?a =>
+    destruct (el_rrid m a _ Hok H2) as (e2 & E2 & W2 & L2 & G2) end. rewrite E2. cbn [bind].
+  cbn [abs_send_time audio_level mid rrid rid toffset tsn] in G2.
+  match type of G2 with _ = Ok ?a =>
+    destruct (el_rid m a _ Hok H3) as (e3 & E3 & W3 & L3 & G3) end. rewrite E3. cbn [bind].
+  cbn [abs_send_time audio_level mid rrid rid toffset tsn] in G3.
+  match type of G3 with _ = Ok ?a =>
+    destruct (el_abs m a _ Hok H4) as (e4 & E4 & W4 & L4 & G4) end. rewrite E4. cbn [bind].
+  cbn [abs_send_time audio_level mid rrid rid toffset tsn] in G4.
+  match type of G4 with _ = Ok ?a =>
+    destruct (el_toffset m a _ Hok H5) as (e5 & E5 & W5 & L5 & G5) end. rewrite E5. cbn [bind].
+  cbn [abs_send_time audio_level mid rrid rid toffset tsn] in G5.
+  match type of G5 with _ = Ok ?a =>
+    destruct (el_audio m a _ Hok H6) as (e6 & E6 & W6 & L6 & G6) end. rewrite E6. cbn [bind].
+  cbn [abs_send_time audio_level mid rrid rid toffset tsn] in G6.
+  match type of G6 with _ = Ok ?a =>
+    destruct (el_tsn m a _ Hok H7) as (e7 & E7 & W7 & L7 & G7) end. rewrite E7. cbn [bind].
+  cbn [abs_send_time audio_level mid rrid rid toffset tsn] in G7.
   eexists. split; [reflexivity|]. split.
   { repeat (apply Forall_app; split); assumption. }
   split; [rewrite !app_length; lia|].
-  rewrite get_fold_app, G1. cbn [bind]. rewrite get_fold_app, G2. cbn [bind].
+  unfold hext_empty. rewrite get_fold_app, G1. cbn [bind]. rewrite get_fold_app, G2. cbn [bind].
   rewrite get_fold_app, G3. cbn [bind]. rewrite get_fold_app, G4. cbn [bind].
   rewrite get_fold_app, G5. cbn [bind]. rewrite get_fold_app, G6. cbn [bind]. rewrite G7.
-  unfold a6, a5, a4, a3, a2, a1, a0, hext_empty.
-  cbn [abs_send_time audio_level mid rrid rid toffset tsn]. rewrite !keep_none.
-  now destruct v.
+  rewrite !keep_none. now destruct v.
 Qed.
 
 (* get (set v) = v, through the wire form *)
